@@ -463,3 +463,48 @@ func LockStepField(g *vh.Gen, stream []byte, mode int) string {
 	}
 	return strings.Join(parts, "&")
 }
+
+// GenCollision: recipients of ONE transaction that name the same destination mailbox through different domains
+// (local naming: alice@a, ALICE@b, alice+tag@b), under a store policy that treats those domains differently - one is
+// stored, the other discarded - in every order. Whatever a server remembers "per destination" instead of per
+// recipient (a decision, a counter, a buffer) shows only here: with one recipient, with distinct local parts or with a
+// policy that treats all domains alike nothing differs.
+func GenCollision(g *vh.Gen, c *Cfg, pool []string) []byte {
+	a, b := "kept.example", "dropped.example"
+	if g.Chance(0.5) {
+		a, b = pool[0], pool[1]
+		if a == b || strings.HasPrefix(a, "[") || strings.HasPrefix(b, "[") {
+			a, b = "kept.example", "dropped.example"
+		}
+	}
+	c.Naming = g.Pick("local", "local", "local", "full", "domain")
+	c.DA, c.Acc, c.Rej, c.RejO = true, "", "", ""
+	c.MaxRcpt = 200
+	if g.Chance(0.5) {
+		c.DS, c.Sto, c.Dis = true, "", b
+	} else {
+		c.DS, c.Sto, c.Dis = false, a, ""
+	}
+	var sb strings.Builder
+	line := func(s string) { sb.WriteString(s); sb.WriteString("\r\n") }
+	line(g.Pick("HELO", "EHLO") + " collide.example")
+	for t := 0; t < 1+g.Intn(3); t++ {
+		base := g.Pick("alice", "bob", "d.e", "u_v")
+		other := g.Pick("carol", "zed")
+		vs := []string{base + "@" + a, base + "@" + b, strings.ToUpper(base) + "@" + b, base + "+tag@" + a, base + "+z@" + b,
+			other + "@" + b, other + "@" + a, base + "@" + strings.ToUpper(b)}
+		for i := len(vs) - 1; i > 0; i-- {
+			j := g.Intn(i + 1)
+			vs[i], vs[j] = vs[j], vs[i]
+		}
+		vs = vs[:2+g.Intn(4)]
+		line("MAIL FROM:<s" + strconv.Itoa(t) + "@" + a + ">")
+		for _, v := range vs {
+			line("RCPT TO:<" + v + ">")
+		}
+		line("DATA")
+		sb.WriteString(StuffLines([]string{"Subject: collide " + strconv.Itoa(t), "", "body " + strconv.Itoa(g.Intn(1000))}))
+	}
+	line("QUIT")
+	return []byte(sb.String())
+}
